@@ -2,6 +2,7 @@
 // at an enumerated site; the status returned by the library must be the category named for that defect.
 //@tu unwind=12 memunwind=60 loop:LogicalBuffer=6 loop:ReadEntries=4 loop:lb_defect=24
 #include "rd.h"
+#include "nested_types.h"
 using nop::ErrorStatus;
 template <typename T> static ErrorStatus decode(const std::uint8_t* p, std::size_t n) { T o; Meta<T>::draw(&o); Rd<PBR> r(p, n); auto st = r.read(&o); return st ? ErrorStatus::None : st.error(); }
 static std::uint8_t bad_prefix() { const std::uint8_t b = nd8(); vassume(b >= 0x8a && b <= 0xb4); return b; }   // any reserved prefix
@@ -83,3 +84,22 @@ D(s1_prefix, s1_defect<0>()) D(s1_count, s1_defect<1>()) D(s1_bin_as_ary, s1_def
 D(tuple_count, count_defect<0>()) D(pair_count, count_defect<1>()) D(array_count, count_defect<2>())
 D(lb_capacity, lb_defect<0>()) D(lb_multiple, lb_defect<1>()) D(lb_ary_capacity, lb_ary_defect()) D(variant, variant_defect())
 D(prefix_u16, scalar_prefix_defect<u16>()) D(prefix_i32, scalar_prefix_defect<i32>()) D(prefix_bool, scalar_prefix_defect<bool>()) D(prefix_float, scalar_prefix_defect<float>()) D(prefix_E8, scalar_prefix_defect<E8>()) D(prefix_u64, scalar_prefix_defect<u64>()) D(prefix_char, scalar_prefix_defect<char>())
+
+// Valid encodings that make the decoder SKIP inside a nested frame (inner table entry unknown to / deleted in the reading
+// definition): library and reference decoder agree on accept, value and consumed length, with further data behind.
+template <typename RT>
+static void nested_skip_vs_ref() {
+  OW w; Meta<OW>::draw(&w); const u8 trailer = nd8();
+  std::uint8_t buf[40] = {}; Out o(buf, sizeof buf); Meta<OW>::enc(w, o); const std::size_t n = o.n; o.put(trailer); o.put(trailer);
+  vassume(o.fits());
+  RT a, b; Meta<RT>::draw(&a); Meta<RT>::draw(&b);
+  Rd<PBR> r(buf, o.n); auto st = r.read(&a);
+  In in(buf, o.n); const bool ok = Meta<RT>::dec(in, &b);
+  vassert(ok && !!st, 1);
+  vassert(Meta<RT>::eq(a, b), 2);
+  vassert(r.consumed() == in.pos && in.pos == n, 3);
+  vrt_end();
+}
+//@h nested_skip_vs_ref : loop:ReadEntries=3 timeout=900
+extern "C" void hq_nested_skip_vs_ref_lack(void) { nested_skip_vs_ref<ORl>(); }
+extern "C" void ht_nested_skip_vs_ref_deleted(void) { nested_skip_vs_ref<ORd>(); }
